@@ -126,7 +126,7 @@ def doc_frame(sp):
     return None
 
 
-def rand_rigid(rng, src, dst, forms=("tuple", "Quaternion", "array", "matrix3", "matrix4"), big=False):
+def rand_rigid(rng, src, dst, forms=("tuple", "Quaternion", "array", "matrix3", "matrix4", "rot4x4"), big=False):
     q = rand_quat(rng)
     t = rand_vec(rng, big)
     if rng.random() < 0.08:
@@ -159,6 +159,10 @@ def _rot_arg(qj, form):
         return np.array(fl)
     if form in ("matrix3", "matrix4"):
         return np.array([[float(x) for x in row] for row in rotmat_exact(q)])
+    if form == "rot4x4":
+        m = np.eye(4)
+        m[:3, :3] = [[float(x) for x in row] for row in rotmat_exact(q)]
+        return m
     raise ValueError(form)
 
 
@@ -282,6 +286,10 @@ class RigidCorr(Corr):
             s, d = rng.sample(FRAME_KEYS, 2) if rng.random() < 0.9 else [rng.choice(FRAME_KEYS)] * 2
             out.append({"kind": "single", "T": rand_rigid(rng, s, d, big=(i % 7 == 0)), "p": rand_vec(rng, big=(i % 11 == 0)),
                         "r": quat_json(rand_quat(rng)), "rform": rng.choice(rforms)})
+            if i % 4 == 3:       # int-typed position (as in the docstrings' `position=(1, 0, 0)`), sometimes an int-typed translation
+                out[-1]["p"] = [rng.randint(-40, 40) for _ in range(3)]
+                if i % 8 == 3 and out[-1]["T"]["form"] != "matrix4":
+                    out[-1]["T"]["t"] = [rng.randint(-40, 40) for _ in range(3)]
         for i in range(n_chain):
             n = rng.randint(2, 5)
             frames = [rng.choice(FRAME_KEYS) for _ in range(n + 1)] if rng.random() < 0.3 else rng.sample(FRAME_KEYS, n + 1)
@@ -303,6 +311,15 @@ class RigidCorr(Corr):
 
     # --- implementation
     def run_impl(self, case):
+        if case["kind"] == "bad_name":
+            return self._run(case)
+        try:
+            return self._run(case)
+        except (TypeError, ValueError, AssertionError, IndexError) as e:
+            # a documented input representation refused: reported by the oracle with this input
+            return {"impl_error": f"{type(e).__name__}: {str(e)[:160]}"}
+
+    def _run(self, case):
         import numpy as np
         from perception_eval.common.transform import HomogeneousMatrix
 
@@ -368,6 +385,8 @@ class RigidCorr(Corr):
 
     # --- model
     def coq_term(self, case, obs):
+        if "impl_error" in obs:
+            return "false"
         if case["kind"] == "bad_name":
             if "error" in obs:
                 return f'(match {c_mk_rigid(case["T"])} with None => true | Some _ => false end)'
@@ -434,6 +453,10 @@ class RigidCorr(Corr):
 
     # --- the property, stated directly on the implementation's outputs
     def oracle(self, case, obs):
+        if "impl_error" in obs:
+            specs = [case["T"]] if "T" in case else case["chain"]
+            return (f"a well-formed transform (rotation forms {[t['form'] for t in specs]}, translation {specs[0]['t']}, position {case.get('p')}) "
+                    f"was refused: {obs['impl_error']}")
         if case["kind"] == "bad_name":
             bad = [k for k in ("src", "dst") if doc_frame(case["T"][k]) is None]
             if bad and "error" not in obs:
@@ -517,9 +540,13 @@ class RigidCorr(Corr):
         return any(abs(s["q"][0][0]) != s["q"][0][1] for s in specs) and any(any(s["t"]) for s in specs)
 
     def distribution(self, cases, obs):
-        d = {"kinds": {}, "forms": {}, "chain_lengths": {}, "rejected_compositions": 0, "negative_w": 0}
+        d = {"kinds": {}, "forms": {}, "chain_lengths": {}, "rejected_compositions": 0, "negative_w": 0, "int_typed_positions": 0,
+             "int_typed_translations": 0}
         for c, o in zip(cases, obs):
             d["kinds"][c["kind"]] = d["kinds"].get(c["kind"], 0) + 1
+            if c["kind"] == "single":
+                d["int_typed_positions"] += all(isinstance(x, int) for x in c["p"])
+                d["int_typed_translations"] += all(isinstance(x, int) for x in c["T"]["t"])
             for s in ([c["T"]] if "T" in c else c["chain"]):
                 d["forms"][s["form"]] = d["forms"].get(s["form"], 0) + 1
                 if s["q"][0][0] < 0:
@@ -625,6 +652,12 @@ class RegistryCorr(Corr):
                         ops.append({"op": "query", "a": a, "b": b})
                 c["ops"] = ops
             out.append(c)
+        # constructor shape (list / tuple / a single matrix / None / no argument) and the read accessors get / [] before or after the query
+        for i, c in enumerate(out):
+            if "ctor" not in c:
+                c["ctor"] = ["list", "tuple", "none", "list", "noarg"][i % 5]
+            if "acc" not in c:
+                c["acc"] = ["first", "last", "no"][i % 3]
         return out
 
     def run_impl(self, case):
@@ -632,7 +665,37 @@ class RegistryCorr(Corr):
         from perception_eval.common.transform import HomogeneousMatrix, TransformDict, TransformKey
 
         mats = [build(s) for s in case["registry"]]
-        reg = TransformDict(mats[0] if len(mats) == 1 and case["p"][0] > 0 else mats)
+        ctor = case.get("ctor", "list")
+        try:
+            if not mats and ctor in ("none", "noarg"):
+                reg = TransformDict(None) if ctor == "none" else TransformDict()     # as FrameGroundTruth builds it without transforms
+            elif ctor == "tuple":
+                reg = TransformDict(tuple(mats))
+            else:
+                reg = TransformDict(mats[0] if len(mats) == 1 and case["p"][0] > 0 else mats)
+        except TypeError as e:
+            return {"ctor_error": f"TransformDict({'None' if ctor == 'none' else '' if ctor == 'noarg' else ctor + ' of ' + str(len(mats))}) raised "
+                                  f"TypeError: {str(e)[:120]}"}
+
+        def accessors(o):
+            """the read accessors of the registry under the query's key spelling (oracle only)"""
+            try:
+                k = TransformKey(_frame_arg(case["a"]), _frame_arg(case["b"])) if case["keyobj"] else (_frame_arg(case["a"]), _frame_arg(case["b"]))
+            except ValueError:
+                o["get"] = o["getitem"] = {"error": "ValueError"}
+                return
+            for name, f in (("get", lambda: reg.get(k)), ("getitem", lambda: reg[k])):
+                try:
+                    m = f()
+                    o[name] = None if m is None else obs_matrix(m)
+                except (KeyError, ValueError) as e:
+                    o[name] = {"error": type(e).__name__}
+            if not isinstance(k, TransformKey):
+                # recorded only (no sentence of the property or of the documentation speaks about comparing a TransformKey with a raw tuple)
+                try:
+                    o["raw_tuple_equal"] = bool(TransformKey(*k) == k)
+                except ValueError:
+                    pass
         for op in case.get("ops", []):
             if op["op"] == "query":
                 try:
@@ -652,6 +715,8 @@ class RegistryCorr(Corr):
                         pass
         a, b = _frame_arg(case["a"]), _frame_arg(case["b"])
         o = {"n_keys": len(reg)}
+        if case.get("acc") == "first":
+            accessors(o)
         try:
             key = TransformKey(a, b) if case["keyobj"] else (a, b)
             arg = case["arg"]
@@ -679,12 +744,17 @@ class RegistryCorr(Corr):
             o["error"] = "KeyError"
         except ValueError as e:
             o["error"] = "ValueError"
+        if case.get("acc") == "last":
+            accessors(o)
+        o["n_keys_after"] = len(reg)
         return o
 
     def _args(self, case):
         return c_sp(case["a"]), c_sp(case["b"])
 
     def coq_term(self, case, obs):
+        if "ctor_error" in obs:
+            return "false"
         specs = effective_registry(case)
         names = [f"T{i}" for i in range(len(specs))]
         reg = llit(names)
@@ -739,7 +809,42 @@ class RegistryCorr(Corr):
             return "inverse", rev[-1]
         return "KeyError", None
 
+    def _oracle_accessors(self, case, obs):
+        """names and enums are interchangeable as keys of EVERY registry accessor: get / [] answer with the entry registered X->Y (no
+        inverse fallback: Optional / KeyError), and an entry registered again under another spelling replaces the old one"""
+        registry = effective_registry(case)
+        labels = [(doc_frame(m["src"]), doc_frame(m["dst"])) for m in registry]
+        for k in ("n_keys", "n_keys_after"):
+            if k in obs and obs[k] != len(set(labels)):
+                return f"the registry holds {obs[k]} keys ({k}) for {len(set(labels))} distinct registered frame pairs {sorted(set(labels))}"
+        if "get" not in obs:
+            return None
+        s, d = doc_frame(case["a"]), doc_frame(case["b"])
+        key = f"({case['a']}, {case['b']})"
+        if s is None or d is None:
+            return None
+        direct = [m for m, l in zip(registry, labels) if l == (s, d)]
+        if not direct:
+            if obs["get"] is not None:
+                return f"get{key} = {obs['get']} although no {s}->{d} entry is registered"
+            if obs["getitem"] != {"error": "KeyError"}:
+                return f"registry[{key}] = {obs['getitem']} although no {s}->{d} entry is registered (expected KeyError)"
+            return None
+        want = hm_exact(fr_quat(direct[-1]["q"]), fr_vec(direct[-1]["t"]))
+        for name in ("get", "getitem"):
+            o = obs[name]
+            if o is None or "error" in o:
+                return f"{name} with key {key} does not find the registered {s}->{d} entry: {o}"
+            if (o["src"], o["dst"]) != (s, d) or not close(o["matrix"], want):
+                return f"{name} with key {key} returns {o['src']}->{o['dst']} {o['matrix']}, not the entry registered last for {s}->{d}"
+        return None
+
     def oracle(self, case, obs):
+        if "ctor_error" in obs:
+            return obs["ctor_error"] + " (documented: a HomogeneousMatrix, a sequence of them or None)"
+        msg = self._oracle_accessors(case, obs)
+        if msg:
+            return msg
         kind, m = self._expected(case)
         key = f"({case['a']}, {case['b']})"
         arg = case["arg"]
@@ -801,8 +906,20 @@ class RegistryCorr(Corr):
     def distribution(self, cases, obs):
         d = {"expected": {}, "args": {}, "key_forms": {"member": 0, "str": 0, "TransformKey": 0}, "registry_sizes": {},
              "cases_with_operation_sequence": sum(1 for c in cases if c.get("ops")),
-             "operations": {k: sum(1 for c in cases for op in c.get("ops", []) if op["op"] == k) for k in ("query", "set", "del")}}
+             "operations": {k: sum(1 for c in cases for op in c.get("ops", []) if op["op"] == k) for k in ("query", "set", "del")},
+             "constructor": {}, "accessors_get_getitem": {"found": 0, "absent": 0, "bad_name": 0},
+             "observation_TransformKey_eq_raw_tuple_of_same_frames": {"equal": 0, "not_equal": 0}}
         for c, o in zip(cases, obs):
+            if not c["registry"] and c.get("ctor") in ("none", "noarg"):
+                ck = "None" if c["ctor"] == "none" else "no argument"
+            else:
+                ck = "tuple" if c.get("ctor") == "tuple" else "single matrix" if len(c["registry"]) == 1 and c["p"][0] > 0 else "list"
+            d["constructor"][ck] = d["constructor"].get(ck, 0) + 1
+            if isinstance(o, dict) and "get" in o:
+                g = o["get"]
+                d["accessors_get_getitem"]["absent" if g is None else "bad_name" if "error" in g else "found"] += 1
+            if isinstance(o, dict) and "raw_tuple_equal" in o:
+                d["observation_TransformKey_eq_raw_tuple_of_same_frames"]["equal" if o["raw_tuple_equal"] else "not_equal"] += 1
             k = self._expected(c)[0]
             d["expected"][k] = d["expected"].get(k, 0) + 1
             d["args"][c["arg"]] = d["args"].get(c["arg"], 0) + 1
@@ -829,13 +946,17 @@ class C18(Prop):
                   "answers with the last registered X->Y, else the inverse of the last registered Y->X, returns the arguments for X->X however "
                   "X is spelt, raises KeyError when neither direction is registered and ValueError for unknown names; str (any case) and "
                   "FrameID keys are interchangeable. Model and implementation are compared on every run on rational points of S^3 (both signs, "
-                  "tuple/Quaternion/array/3x3/4x4 input), chains of 2-5 frames, every spelling of every FrameID, missing and malformed keys.")
+                  "tuple/Quaternion/array/3x3/4x4 input), chains of 2-5 frames, every spelling of every FrameID, missing and malformed keys. "
+                  "Run-time oracle only: get / [] / len of the registry under every key spelling, constructor shapes, int-typed positions.")
     level_note = ("Trusted: Coq kernel+vm_compute; translator for the FrameID table and parser shape; the closed forms for np.linalg.inv and "
                   "Quaternion(matrix=...) (validated within 1e-9 by the correspondence, and inv by the matrix-inverse theorem); float rounding "
                   "inside numpy/pyquaternion (tolerance 1e-9); rotations compared up to the sign of the quaternion.")
     rule = ("rigid: boundary rotations x forms, random single transforms (all observations of transform/inv/matrix), chains of 2-5 with 22% "
             "broken chains, malformed names; registry: all spellings of all 20 frames for X->X/direct/inverse, random registries of 0-5 "
-            "matrices with duplicates and X->X entries, point/pose/matrix arguments; non-trivial = non-identity rotation and non-zero "
+            "matrices with duplicates and X->X entries, point/pose/matrix arguments; registries built from a list / tuple / single matrix / "
+            "None / no argument; get / [] under the query's key spelling before or after the query (oracle: the entry registered last for "
+            "X->Y, None / KeyError otherwise) and len() = number of distinct registered frame pairs; rigid: rotation also as a 4x4 matrix "
+            "to the constructor, int-typed positions and translations; non-trivial = non-identity rotation and non-zero "
             "translation (rigid) / non-empty registry")
     assumptions = ["rotations are rational unit quaternions (the implementation receives the nearest binary64 values)",
                    "np.linalg.inv / Quaternion(matrix=) modelled by their closed forms", "ASCII-only model of str.lower()"]
